@@ -114,6 +114,20 @@ type RespWriter struct {
 	// bytes to arrive first, so that they sit in the hijacked bufio.Reader the way
 	// they do when a client starts sending as soon as it has seen the 101.
 	WaitPending time.Duration
+	// Deferred makes this a framework-style writer (gin): WriteHeader only notes the status, and
+	// nothing is "on the wire" (Code stays 0) until WriteHeaderNow or a Write commits it.
+	// Hijack commits nothing.
+	Deferred bool
+	pending  int
+}
+
+// WriteHeaderNow commits a status noted by WriteHeader (gin's ResponseWriter has this method).
+func (w *RespWriter) WriteHeaderNow() {
+	if w.Deferred && w.Code == 0 && w.pending != 0 {
+		w.Deferred = false
+		w.WriteHeader(w.pending)
+		w.Deferred = true
+	}
 }
 
 // NewRespWriter returns a recording writer whose Hijack hands out lib.
@@ -121,6 +135,12 @@ func NewRespWriter(lib *memconn.End) *RespWriter { return &RespWriter{H: http.He
 
 func (w *RespWriter) Header() http.Header { return w.H }
 func (w *RespWriter) Write(p []byte) (int, error) {
+	if w.Deferred {
+		if w.pending == 0 {
+			w.pending = 200
+		}
+		w.WriteHeaderNow()
+	}
 	if w.Code == 0 {
 		w.Code = 200
 	}
@@ -128,6 +148,12 @@ func (w *RespWriter) Write(p []byte) (int, error) {
 	return len(p), nil
 }
 func (w *RespWriter) WriteHeader(code int) {
+	if w.Deferred {
+		if w.pending == 0 {
+			w.pending = code
+		}
+		return
+	}
 	if w.Code == 0 {
 		w.Code = code
 		if w.OnHeader != nil {
